@@ -1,1 +1,144 @@
-// harnesses for src/sync_sync_flag (child module, cfg(kani) only)
+// C10 (SyncFlag half): harnesses over the real src/sync/sync_flag.rs + SyncBlocker.
+// Child module of src/sync/sync_flag.rs (cfg(kani) only).
+// Real code: SyncFlag::{new, wait, wait_timeout, wait_timeout_impl, fire, is_fired, wakeup_all}.
+// Models: waiter queue (crossbeam SegQueue) = FIFO; Blocker::{park, unpark} = one wake token,
+// a timed park may give up at any moment.
+use super::*;
+use crate::sync::blocking::Blocker;
+use crate::verif_shim::{np, rt, sa};
+use std::panic as stdpanic;
+
+static mut F: *const SyncFlag = std::ptr::null();
+static mut FIRE_LEFT: bool = false;
+static mut FIRE_DONE: bool = false;
+static mut TIMED_OUT: bool = false;
+static mut ROOT_PARKED: bool = false;
+static mut QTAB: [u64; 4] = [0; 4];
+static mut QH: usize = 0;
+static mut QT: usize = 0;
+
+fn is_coroutine_false() -> bool {
+    false
+}
+fn q_push<T>(_q: &SegQueue<T>, v: T) {
+    np::point();
+    assert!(std::mem::size_of::<T>() == 8);
+    unsafe {
+        assert!(QT < 4);
+        QTAB[QT] = std::mem::transmute_copy::<T, u64>(&v);
+        QT += 1;
+    }
+    std::mem::forget(v);
+}
+fn q_pop<T>(_q: &SegQueue<T>) -> Option<T> {
+    np::point();
+    unsafe {
+        if QH == QT {
+            None
+        } else {
+            let r = std::mem::transmute_copy::<u64, T>(&QTAB[QH]);
+            QH += 1;
+            Some(r)
+        }
+    }
+}
+fn run_fire() {
+    unsafe {
+        FIRE_LEFT = false;
+        (*F).fire();
+        FIRE_DONE = true;
+    }
+}
+fn hook() {
+    unsafe {
+        if np::DEPTH == 0 && FIRE_LEFT && kani::any() {
+            np::nested(run_fire);
+        }
+    }
+}
+fn unpark_model(b: &Blocker) {
+    np::point();
+    unsafe { *crate::sync::blocking::verif_kani::blocker_token(b) = 1 };
+}
+fn park_model(b: &Blocker, timeout: Option<Duration>) -> Result<(), ParkError> {
+    np::point();
+    let tok = crate::sync::blocking::verif_kani::blocker_token(b);
+    unsafe {
+        if *tok != 0 {
+            *tok = 0;
+            return Ok(());
+        }
+        if timeout.is_some() && kani::any() {
+            TIMED_OUT = true;
+            return Err(ParkError::Timeout);
+        }
+        ROOT_PARKED = true;
+        if FIRE_LEFT {
+            run_fire();
+        }
+        if *tok != 0 {
+            *tok = 0;
+            return Ok(());
+        }
+        if timeout.is_some() {
+            TIMED_OUT = true;
+            return Err(ParkError::Timeout);
+        }
+        assert!(!FIRE_DONE, "C10: a waiter stays parked for ever although the flag has been fired");
+        kani::assume(false);
+        Ok(())
+    }
+}
+
+#[kani::proof]
+#[kani::unwind(3)]
+#[kani::stub(core::sync::atomic::Atomic::<isize>::fetch_sub, sa::isize_fetch_sub)]
+#[kani::stub(core::sync::atomic::Atomic::<isize>::load, sa::isize_load)]
+#[kani::stub(core::sync::atomic::Atomic::<isize>::store, sa::isize_store)]
+#[kani::stub(core::sync::atomic::Atomic::<bool>::load, sa::bool_load)]
+#[kani::stub(core::sync::atomic::Atomic::<bool>::store, sa::bool_store)]
+#[kani::stub(core::sync::atomic::Atomic::<bool>::swap, sa::bool_swap)]
+#[kani::stub(crossbeam::queue::SegQueue::push, q_push)]
+#[kani::stub(crossbeam::queue::SegQueue::pop, q_pop)]
+#[kani::stub(crate::sync::blocking::Blocker::park, park_model)]
+#[kani::stub(crate::sync::blocking::Blocker::unpark, unpark_model)]
+#[kani::stub(crate::coroutine_impl::is_coroutine, is_coroutine_false)]
+#[kani::stub(std::thread::panicking, np::panicking_stub)]
+#[kani::stub(stdpanic::catch_unwind, rt::catch_unwind_stub)]
+#[kani::stub(stdpanic::take_hook, rt::take_hook_stub)]
+#[kani::stub(stdpanic::set_hook, rt::set_hook_stub)]
+#[kani::stub(std::sync::Arc::drop_slow, rt::arc_drop_slow_stub)]
+fn c10_syncflag_waiter_vs_fire_d1() {
+    let f: &'static SyncFlag = Box::leak(Box::new(SyncFlag::new()));
+    let timed: bool = kani::any();
+    unsafe {
+        F = f;
+        FIRE_LEFT = true;
+        np::HOOK = Some(hook);
+    }
+    assert!(!f.is_fired() || unsafe { FIRE_DONE || !FIRE_LEFT });
+    let ok = if timed {
+        f.wait_timeout(Duration::from_millis(5))
+    } else {
+        f.wait();
+        true
+    };
+    unsafe {
+        np::HOOK = None;
+        if !ok {
+            assert!(timed && TIMED_OUT, "C10: wait gave up without a time-out");
+        } else {
+            assert!(!FIRE_LEFT, "C10: wait returned true although nobody fired the flag");
+        }
+        kani::cover!(ok && ROOT_PARKED, "waiter parked and was woken by fire");
+        kani::cover!(!ok && np::PREEMPTS > 0, "time-out raced with fire");
+        if FIRE_LEFT {
+            run_fire();
+        }
+        // one-way latch: fired for ever, every later wait returns true at once
+        assert!(f.is_fired(), "C10: flag reads un-fired after fire()");
+        assert!(f.wait_timeout(Duration::from_millis(1)), "C10: wait after fire did not succeed");
+        f.wait();
+        assert!(f.is_fired(), "C10: flag reads un-fired again after waits");
+    }
+}
